@@ -374,7 +374,8 @@ fn apply_cli_overrides(mut cfg: Config, opts: &Opts) -> Config {
 }
 
 fn toml_in_dir(world: &World, dir: &str) -> Option<String> {
-    for n in ["stylua.toml", ".stylua.toml"] {
+    let names = if world.dot_first { [".stylua.toml", "stylua.toml"] } else { ["stylua.toml", ".stylua.toml"] };
+    for n in names {
         let p = join(dir, n);
         if world.files.contains_key(&p) {
             return Some(p);
